@@ -37,6 +37,8 @@ pub trait Num:
     fn eqv(self, o: Self) -> Self::B;
     fn ite(c: Self::B, a: Self, b: Self) -> Self;
     fn abs_(self) -> Self;
+    /// sign as f32::signum defines it: 1 for x >= 0, -1 otherwise
+    fn signum_(self) -> Self;
     fn sqrt_(self) -> Self;
     fn cbrt_(self) -> Self;
     fn powf_(self, e: Self) -> Self;
@@ -97,6 +99,9 @@ macro_rules! num_float {
             }
             fn abs_(self) -> Self {
                 self.abs()
+            }
+            fn signum_(self) -> Self {
+                self.signum()
             }
             fn sqrt_(self) -> Self {
                 self.sqrt()
@@ -164,6 +169,9 @@ impl Num for $S {
     }
     fn abs_(self) -> Self {
         palette::num::Abs::abs(self)
+    }
+    fn signum_(self) -> Self {
+        palette::num::Signum::signum(self)
     }
     fn sqrt_(self) -> Self {
         palette::num::Sqrt::sqrt(self)
